@@ -40,6 +40,15 @@ def gen_tmd(rng, category=None):
     ids = rng.sample(range(1 << 32), n)
     ch = [{'id': ids[j], 'index': rng.choice([j, rng.getrandbits(16)]), 'type': rng.choice([0, 1, 2, 4, 0x4000, 0x8000, 0x8001, 0xC007, 0x4005]),
            'size': rng.choice([0, 1, (1 << 64) - 1, rng.getrandbits(40)]), 'hash': pyenv.rbytes(rng, 32)} for j in range(n)]
+    gen_tmd.twin = None
+    if n >= 2 and rng.random() < 0.3:
+        # two contents told apart by one bit of the content id only (same size and digest, as DLC parts can be): the corruption that flips
+        # that bit makes one record a copy of the other
+        i, j = rng.sample(range(n), 2)
+        b = rng.randrange(32)
+        ch[j] = dict(ch[i], id=ch[i]['id'] ^ (1 << b))
+        if all(c['id'] != ch[j]['id'] for k, c in enumerate(ch) if k != j):
+            gen_tmd.twin = (j, 3 - b // 8, b % 8)
     cat = rng.getrandbits(16) if category is None else category
     tid = (rng.getrandbits(16) << 48) | (cat << 32) | rng.getrandbits(32)
     extra = {}
@@ -60,6 +69,66 @@ def gen_tmd(rng, category=None):
     raw = P.build_tmd(tid, ch, **kw)
     gen_tmd.last_kwargs = kw
     return raw, ch, tid, sig
+
+
+def category_list_spec(v):
+    """what ContentCategories(v).to_list() is as a function of v alone (the decomposition of the enum module of Python 3.8, which pyctr
+    carries as util.decompose): the named flags contained in v, one unnamed member per remaining bit, largest first"""
+    from pyctr.type.tmd import ContentCategories as CC
+    name = CC(v)._name_
+    members = [(m._name_, m._value_) for m in CC if m._value_ and m._value_ & v == m._value_]
+    rest = v
+    for _, mv in members:
+        rest &= ~mv
+    bit = 1 << 15
+    while bit:
+        if rest & bit:
+            members.append((CC(bit)._name_, bit))
+        bit >>= 1
+    if not members:
+        members.append((name, v))
+    members.sort(key=lambda m: m[1], reverse=True)
+    if len(members) > 1 and members[0][1] == v:
+        members.pop(0)
+    out = []
+    if name is not None:
+        out.append(name)
+    if len(members) == 1 and members[0][0] is None:
+        out.append(members[0][1])
+    else:
+        for mn, mv in members:
+            if str(mn or mv) not in out:
+                out.append(str(mn or mv))
+    return out
+
+
+def category_history_probe(ctx):
+    """the category list of a title is a function of its bytes: in a fresh interpreter, loading a TMD whose category word has two
+    unnamed bits, then TMDs with each of those bits alone, then the first one again gives the first answer again"""
+    import subprocess, sys, os
+    code = (
+        'import io, sys, warnings; warnings.simplefilter("ignore")\n'
+        'from pyctr.type.tmd import TitleMetadataReader as T\n'
+        'raws = [bytes.fromhex(l) for l in sys.stdin.read().split()]\n'
+        'for r in raws: print(repr(T.load(io.BytesIO(r)).title_content_categories))\n')
+    rng = random.Random(ctx.seed)
+    outs = []
+    for cat in (0x4200, 0x4201, 0x0600, 0x3000):
+        bits = [1 << k for k in range(16) if cat >> k & 1 and (1 << k) not in (1, 2, 4, 8, 0x10, 0x20, 0x40, 0x80, 0x100, 0x8000)]
+        seq = [cat] + bits + [cat]
+        raws = [P.build_tmd((4 << 48) | (c << 32) | 0x1234, []) for c in seq]
+        env = dict(os.environ, PYTHONPATH=os.environ.get('PYTHONPATH', ''))
+        res = subprocess.run([sys.executable, '-c', code], input=' '.join(r.hex() for r in raws), capture_output=True, text=True, env=env, timeout=120)
+        lines = res.stdout.strip().split('\n')
+        ctx.stat('category_history_probes')
+        case = dict(kind='category-history', category=cat, then=bits)
+        ctx.case(case)
+        if res.returncode or len(lines) != len(seq):
+            ctx.diff('oracle', 'tmd-category-history', case, 'lists', (res.stderr or res.stdout)[-200:], 'the category history probe did not run')
+        elif lines[0] != lines[-1]:
+            ctx.diff('oracle', 'tmd-category-history', case, lines[0], lines[-1],
+                     f'the same TMD bytes (category word {cat:#06x}) give the category list {lines[0]} in a fresh interpreter and {lines[-1]} after '
+                     f'TMDs with the categories {[hex(b) for b in bits]} were loaded: the parsed object depends on what was parsed before')
 
 
 def dump(t):
@@ -207,8 +276,10 @@ def run_case(ctx, mr, case):
     if back != raw:
         k = next((i for i, (a, b) in enumerate(zip(back, raw)) if a != b), min(len(back), len(raw)))
         ctx.diff('oracle', 'tmd-bytes-roundtrip', case, raw[k:k + 16].hex(), back[k:k + 16].hex(), f'bytes(load(b)) != b at offset {k:#x}')
+    reloaded_cats = None
     try:
         t2 = TitleMetadataReader.load(io.BytesIO(back))
+        reloaded_cats = list(t2.title_content_categories)
         same = (t2.title_id == t.title_id and t2.save_size == t.save_size and t2.srl_save_size == t.srl_save_size
                 and t2.title_version == t.title_version and t2.info_records == t.info_records and t2.chunk_records == t.chunk_records
                 and t2.signature == t.signature and t2.content_count == t.content_count
@@ -236,6 +307,12 @@ def run_case(ctx, mr, case):
         if first != raw or second != raw2:
             ctx.diff('oracle', 'tmd-bytes-after-assignment', dict(case, chunks2=n2), 'the serialisation of the records assigned', 'something else',
                      'bytes(tmd) after info_records / chunk_records were assigned does not hold the assigned records (a stale info block or hash?)')
+    cat_word = (tid >> 32) & 0xFFFF
+    ctx.stat('category_lists')
+    if list(t.title_content_categories) != category_list_spec(cat_word) or reloaded_cats not in (None, list(t.title_content_categories)):
+        ctx.diff('oracle', 'tmd-category-list', dict(case, category_word=cat_word), category_list_spec(cat_word), list(t.title_content_categories),
+                 f'category word {cat_word:#06x}: title_content_categories is not the decomposition of the word (it depends on which other '
+                 f'category words were seen before)')
     if t.title_id != '%016x' % tid or len(t.chunk_records) != len(ch):
         ctx.diff('oracle', 'tmd-fields', case, '%016x' % tid, t.title_id, 'title id / record count differ from what was packed')
     # 2. tamper sweep: flips in the info block and in covered chunk records
@@ -243,16 +320,23 @@ def run_case(ctx, mr, case):
     info_lo, info_hi = hs + 0xC4, hs + 0xC4 + 0x900
     good = covered_records(t)
     good_infos = t.info_records
-    for _ in range(case['flips']):
+    twin = gen_tmd.twin
+    for flip_no in range(case['flips']):
         bad = bytearray(raw)
         kind = rng.randrange(4)
-        if kind == 0 or len(raw) == info_hi:
+        if flip_no == 0 and twin is not None:
+            kind, pos = 2, info_hi + 48 * twin[0] + twin[1]
+            bad[pos] ^= 1 << twin[2]
+            ctx.stat('tamper_makes_twin_records')
+        elif kind == 0 or len(raw) == info_hi:
             pos = rng.randrange(info_lo, info_lo + max(0x24 * max(1, len(good_infos)) + 8, 8))
         elif kind == 1:
             pos = rng.randrange(info_lo, info_hi)
         else:
             pos = rng.randrange(info_hi, len(raw))
-        if kind == 3:
+        if flip_no == 0 and twin is not None:
+            pass
+        elif kind == 3:
             bad[pos] = rng.getrandbits(8)
             if pos + 1 < len(bad):
                 bad[pos + 1] = rng.getrandbits(8)
@@ -303,6 +387,7 @@ def gen_cases(ctx, rng):
 def run(ctx):
     proof = prove('C11', ['tmd'], ['C11_props'], static_deps=['Proofs/TmdProofs.v', 'Proofs/TmdSerProofs.v', 'Base/PyInt.v', 'Base/Fields.v'])
     run_cases(ctx, gen_cases(ctx, ctx.rng))
+    category_history_probe(ctx)
 
     def search():
         c2 = Ctx('C11', 'thorough', ctx.seed + 1)
